@@ -4,8 +4,8 @@ use crate::error::FrameParseError;
 use crate::common::frame::FrameDestination;
 use crate::types::UnitId;
 
-pub open spec fn be16(s: Seq<u8>, i: int) -> int { s[i] as int * 256 + s[i + 1] as int }
-pub open spec fn le16(s: Seq<u8>, i: int) -> int { s[i] as int + s[i + 1] as int * 256 }
+pub use crate::be16;
+pub use crate::le16;
 
 // what a byte stream begins with
 pub enum StreamNext {
